@@ -376,3 +376,293 @@ func TestC05EndToEnd(t *testing.T) {
 	})
 	rec.Done()
 }
+
+// ---------- real time: relay stream failures ----------
+
+type relayEvent struct {
+	AtMs int    `json:"at_ms"`
+	Kind string `json:"kind"` // fail_send | fail_recv | down | up
+	Dir  string `json:"dir"`  // c2s | s2c (stream)
+	N    int    `json:"n,omitempty"`
+}
+
+type c05rtCase struct {
+	Seed   uint64       `json:"seed"`
+	KK     bool         `json:"kk"`
+	C2S    []int        `json:"c2s"`
+	S2C    []int        `json:"s2c"`
+	GapMs  int          `json:"gap_ms"` // pause between writes so that faults hit a live transfer
+	Events []relayEvent `json:"events"`
+}
+
+// runC05RT is the real-time sibling of runC05: the relay breaks streams
+// (injected Send/Recv errors) and goes down and up again. The mailbox conns
+// then sleep in their 2s re-connect back-off under their stream mutex, which a
+// synctest bubble cannot schedule, hence real time.
+func runC05RT(c *c05rtCase) (out c05Outcome) {
+	start := time.Now()
+	r := relay.New(0)
+	sid := sidFromSeed(c.Seed)
+	c2sID, s2cID := mailbox.GetSID(sid, false), mailbox.GetSID(sid, true)
+	mp, err := newMailboxPairOn(r, c.Seed)
+	if err != nil {
+		out.violation = "setup: " + err.Error()
+		return
+	}
+	defer mp.Close()
+	cli, srv := ecdhKey(c.Seed, "cli"), ecdhKey(c.Seed, "srv")
+	pass := entropy(c.Seed, "pass", 14)
+	auth := entropy(c.Seed, "auth", 64)
+	var cRemote, sRemote *btcec.PublicKey
+	if c.KK {
+		cRemote, sRemote = srv.PubKey(), cli.PubKey()
+	}
+	cdC := mailbox.NewConnData(cli, cRemote, pass, nil, nil, nil)
+	cdS := mailbox.NewConnData(srv, sRemote, pass, auth, nil, nil)
+	nc, ns := mailbox.NewNoiseGrpcConn(cdC), mailbox.NewNoiseGrpcConn(cdS)
+	var (
+		hwg        sync.WaitGroup
+		cc, sc     net.Conn
+		cerr, serr error
+	)
+	hwg.Add(2)
+	go func() { defer hwg.Done(); cc, _, cerr = nc.ClientHandshake(context.Background(), "", mp.C) }()
+	go func() { defer hwg.Done(); sc, _, serr = ns.ServerHandshake(mp.S) }()
+	hwg.Wait()
+	if cerr != nil || serr != nil {
+		out.violation = fmt.Sprintf("Noise handshake failed on a fault-free relay: client %v, server %v", cerr, serr)
+		return
+	}
+	// relay events
+	evDone := make(chan struct{})
+	go func() {
+		defer close(evDone)
+		t0 := time.Now()
+		for _, e := range c.Events {
+			if d := ms(e.AtMs) - time.Since(t0); d > 0 {
+				time.Sleep(d)
+			}
+			id := c2sID
+			if e.Dir == "s2c" {
+				id = s2cID
+			}
+			switch e.Kind {
+			case "fail_send":
+				r.FailNext(id[:], true, e.N)
+			case "fail_recv":
+				r.FailNext(id[:], false, e.N)
+			case "down":
+				r.SetDown(true)
+			case "up":
+				r.SetDown(false)
+			}
+		}
+		r.SetDown(false)
+	}()
+	sides := [2]*e2eSide{{conn: cc}, {conn: sc}}
+	for i, l := range c.C2S {
+		sides[0].offered = append(sides[0].offered, entropy(c.Seed, fmt.Sprintf("c2s/%d", i), l))
+	}
+	for i, l := range c.S2C {
+		sides[1].offered = append(sides[1].offered, entropy(c.Seed, fmt.Sprintf("s2c/%d", i), l))
+	}
+	var mu sync.Mutex
+	var wg sync.WaitGroup
+	for i := 0; i < 2; i++ {
+		s, peerTotal := sides[i], 0
+		for _, p := range sides[1-i].offered {
+			peerTotal += len(p)
+		}
+		wg.Add(2)
+		go func() {
+			defer wg.Done()
+			for _, p := range s.offered {
+				time.Sleep(ms(c.GapMs))
+				n, err := safeConnWrite(s.conn, p)
+				mu.Lock()
+				if err != nil || n != len(p) {
+					if err == nil {
+						err = fmt.Errorf("short write %d of %d", n, len(p))
+					}
+					s.werr = err
+					mu.Unlock()
+					return
+				}
+				s.wrote = append(s.wrote, p)
+				mu.Unlock()
+			}
+		}()
+		go func() {
+			defer wg.Done()
+			buf := make([]byte, 70000)
+			got := 0
+			for got < peerTotal {
+				n, err := safeConnRead(s.conn, buf)
+				mu.Lock()
+				s.read = append(s.read, buf[:n]...)
+				got += n
+				if err != nil {
+					s.rerr = err
+					mu.Unlock()
+					return
+				}
+				mu.Unlock()
+			}
+		}()
+	}
+	done := make(chan struct{})
+	go func() { wg.Wait(); close(done) }()
+	<-evDone
+	finished := false
+	select {
+	case <-done:
+		finished = true
+	case <-time.After(90 * time.Second): // >= 10x the worst case after the relay is healthy again
+	}
+	mu.Lock()
+	for i := 0; i < 2; i++ {
+		want := bytes.Join(sides[1-i].offered, nil)
+		got := sides[i].read
+		if len(got) > len(want) || !bytes.Equal(got, want[:len(got)]) {
+			out.violation = fmt.Sprintf("%s read %d bytes that are not a prefix of the %d bytes its peer wrote",
+				[]string{"client", "server"}[i], len(got), len(want))
+		}
+	}
+	if out.violation == "" && !finished {
+		var blocked []string
+		for i, s := range sides {
+			if s.rerr == nil && s.werr == nil {
+				blocked = append(blocked, fmt.Sprintf("%s sees no error (read %d bytes, wrote %d of %d records)",
+					[]string{"client", "server"}[i], len(s.read), len(s.wrote), len(s.offered)))
+			}
+		}
+		if len(blocked) > 0 {
+			out.violation = fmt.Sprintf("transfer neither completed nor failed visibly on both sides 90s after the relay was healthy again (%v since start): %s",
+				time.Since(start), strings.Join(blocked, "; "))
+		} else {
+			out.labels = append(out.labels, "failed_visibly")
+		}
+	}
+	if finished {
+		complete := true
+		for i := 0; i < 2; i++ {
+			if len(sides[i].read) != len(bytes.Join(sides[1-i].offered, nil)) {
+				complete = false
+			}
+		}
+		if complete {
+			out.labels = append(out.labels, "completed")
+		} else {
+			out.labels = append(out.labels, "failed_visibly")
+		}
+	}
+	var plains [][]byte
+	for _, s := range sides {
+		plains = append(plains, s.offered...)
+	}
+	mu.Unlock()
+	_ = cc.Close()
+	_ = sc.Close()
+	msgs, events := r.Snapshot()
+	nerr := 0
+	for _, e := range events {
+		if (e.Op == "send_err" || e.Op == "recv_err") && (e.Note == "injected" || e.Note == "down") {
+			nerr++
+		}
+	}
+	if nerr > 0 {
+		out.labels = append(out.labels, "stream_broken")
+	}
+	out.nontrivial = nerr > 0 && len(plains) > 0
+	if out.violation == "" {
+		for id, list := range msgs {
+			for _, m := range list {
+				for _, p := range plains {
+					if len(p) >= 16 && bytes.Contains(m, p[:16]) {
+						out.violation = fmt.Sprintf("a relay message on stream %x.. contains plaintext", id[:4])
+					}
+				}
+				if bytes.Contains(m, auth[:16]) {
+					out.violation = "a relay message contains the auth payload"
+				}
+			}
+		}
+	}
+	if out.violation != "" {
+		for _, e := range events {
+			if e.Op != "send" && e.Op != "recv" && len(out.events) < 80 {
+				out.events = append(out.events, fmt.Sprintf("%v %s %x %s %s", e.T, e.Op, e.Stream[len(e.Stream)-2:], e.Who, e.Note))
+			}
+		}
+	}
+	return
+}
+
+func TestC05RealTime(t *testing.T) {
+	const unit = "TestC05RealTime"
+	rec := stats.New(t, "C05", unit)
+	var rc c05rtCase
+	if stats.ReplayCase(unit, &rc) {
+		if o := runC05RT(&rc); o.violation != "" {
+			rec.Violation(o.violation, "c05rt", rc)
+			t.Fatalf("%s\n%s", o.violation, strings.Join(o.events, "\n"))
+		}
+		return
+	}
+	if stats.ReplayMode() {
+		t.Skip()
+	}
+	const batch = 32
+	rapid.Check(t, func(rt *rapid.T) {
+		cases := make([]*c05rtCase, batch)
+		for i := range cases {
+			c := &c05rtCase{Seed: rapid.Uint64().Draw(rt, "seed"), KK: rapid.Bool().Draw(rt, "kk")}
+			wg := rapid.OneOf(rapid.IntRange(1, 400), rapid.IntRange(1, 20000), rapid.SampledFrom([]int{32768, 65535}))
+			c.C2S = rapid.SliceOfN(wg, 1, 6).Draw(rt, "c2s")
+			c.S2C = rapid.SliceOfN(wg, 0, 6).Draw(rt, "s2c")
+			c.GapMs = rapid.SampledFrom([]int{0, 100, 600}).Draw(rt, "gap")
+			eg := rapid.Custom(func(t *rapid.T) relayEvent {
+				return relayEvent{
+					AtMs: rapid.SampledFrom([]int{0, 50, 300, 1000, 2500, 4000}).Draw(t, "at"),
+					Kind: rapid.SampledFrom([]string{"fail_send", "fail_send", "fail_recv", "fail_recv", "down", "up"}).Draw(t, "kind"),
+					Dir:  rapid.SampledFrom([]string{"c2s", "s2c"}).Draw(t, "dir"),
+					N:    rapid.IntRange(1, 2).Draw(t, "n"),
+				}
+			})
+			c.Events = rapid.SliceOfN(eg, 1, 4).Draw(rt, "events")
+			// events in time order
+			for a := 0; a < len(c.Events); a++ {
+				for b := a + 1; b < len(c.Events); b++ {
+					if c.Events[b].AtMs < c.Events[a].AtMs {
+						c.Events[a], c.Events[b] = c.Events[b], c.Events[a]
+					}
+				}
+			}
+			cases[i] = c
+		}
+		outs := make([]c05Outcome, batch)
+		var wg sync.WaitGroup
+		for i := range cases {
+			i := i
+			wg.Add(1)
+			go func() { defer wg.Done(); outs[i] = runC05RT(cases[i]) }()
+		}
+		wg.Wait()
+		for i, o := range outs {
+			rec.Case(o.nontrivial, fmt.Sprintf("%+v", *cases[i]), o.labels...)
+			if o.nontrivial && rec.WantSample() {
+				rec.Sample(cases[i])
+			}
+		}
+		for i, o := range outs {
+			if o.violation != "" {
+				rec.Pending(o.violation, "c05rt", struct {
+					*c05rtCase
+					Events2 []string `json:"relay_events"`
+				}{cases[i], o.events})
+				rt.Fatalf("%s", o.violation)
+			}
+		}
+	})
+	rec.Done()
+}
